@@ -499,3 +499,47 @@ def e_rules(p: Project, rep: Report, thorough=False):
             if t in (f"{pname} is not None", pname) and makes(s_.orelse):
                 ok = True
     rep.check("E-R4", "OFXTree.parse:fresh-builder-per-parse", ok, "parse() does not create its own TreeBuilder when none is given", f"{p.module('ofxtools.Parser').relpath}:{parse.lineno}")
+
+
+def e_r5_ownership_and_context(p: Project, rep: Report, thorough=False):
+    """two effects outside the write-site classification: taking ownership of the caller's stream, and the thread-local decimal context"""
+    rep.rule("E-R5", "a text wrapper put around a stream the caller gave is detached again on every normal path: io.TextIOWrapper(<param>) owns the buffer and CLOSES it when it is collected, so without .detach() parsing closes the caller's stream (it cannot be read or parsed again)")
+    rep.rule("E-R6", "the decimal context is left alone: no assignment to decimal.getcontext().<attr>, no setcontext() - the context is per thread, so a change made at import (or by one call) holds only for the thread that made it and the same input converts differently in another thread")
+    funcs = scope_functions(p, thorough)
+    n5 = n6 = 0
+    for modname, qn, cls, fn in funcs:
+        params = set(params_of(fn))
+        cfg = None
+        for st in own_statements(fn):
+            if isinstance(st, (ast.Assign, ast.AnnAssign)) and isinstance(st.value, ast.Call) and (dotted(st.value.func) or "").split(".")[-1] == "TextIOWrapper" and st.value.args:
+                root = root_name(st.value.args[0])
+                if root not in params:
+                    continue
+                n5 += 1
+                tgt = st.targets[0] if isinstance(st, ast.Assign) else st.target
+                name = tgt.id if isinstance(tgt, ast.Name) else None
+                cfg = cfg or CFG(fn)
+                node = cfg.node_of(st)
+                det = [n.id for n in cfg.nodes_calling(lambda c: isinstance(c.func, ast.Attribute) and c.func.attr == "detach" and name is not None and text(c.func.value) == name)]
+                ok = bool(det) and node is not None and cfg.must_pass_through([cfg.exit.id], det, edge_filter=cfg.normal_only(), start=node.id)
+                rep.check("E-R5", f"{modname}:{qn}:TextIOWrapper({root})", ok, f"{text(st.value)[:70]} wraps the caller's stream and is not detached on every path: when the wrapper is collected it closes `{root}`, so the source given to the parser is closed by parsing it" if not ok else "", f"{p.module(modname).relpath}:{st.lineno}")
+    # decimal context: anywhere in the modules in scope, including import time
+    seen_mods = sorted({m for m, _q, _c, _f in funcs})
+    for modname in seen_mods:
+        m = p.module(modname)
+        for x in ast.walk(m.tree):
+            bad = None
+            if isinstance(x, (ast.Assign, ast.AugAssign)):
+                tgts = x.targets if isinstance(x, ast.Assign) else [x.target]
+                for t in tgts:
+                    if isinstance(t, ast.Attribute) and isinstance(t.value, ast.Call) and (dotted(t.value.func) or "").split(".")[-1] == "getcontext":
+                        bad = text(t)
+            elif isinstance(x, ast.Call) and (dotted(x.func) or "").split(".")[-1] == "setcontext":
+                bad = text(x)[:60]
+            if bad:
+                n6 += 1
+                rep.check("E-R6", f"{modname}:decimal-context({bad[:40]})", False, f"`{bad}` changes the decimal context of the current thread only: conversions done in any other thread keep the default context and give a different result (or raise) for the same input", f"{m.relpath}:{x.lineno}")
+    if n5 == 0:
+        rep.check("E-R5", "no-text-wrapper-around-caller-streams", True, "", "")
+    if n6 == 0:
+        rep.check("E-R6", "decimal-context-untouched", True, "", "")
